@@ -16,7 +16,7 @@ Nlink(n) == 1 + Cardinality({ m \in NodeIdsW : W15.nodes[m].linkto = Base(n) })
 SizeW(n) == LET c == W15.nodes[Base(n)].content IN IF c = <<>> THEN 0 ELSE c[1].count + (IF Len(c) > 1 THEN c[2].count ELSE 0)
 Snap15 == [n \in NodeIdsW |-> [sizen |-> SizeW(n), nlinkn |-> Nlink(n)]]
 Rec15 == [world |-> W15, snapshot |-> Snap15]
-Entry(n) == [size |-> SizeW(n), hardlinks |-> Nlink(n), name |-> W15.nodes[n].namec]
+Entry(n) == [size |-> SizeW(n), hardlinks |-> Nlink(n), lines |-> CountByte(W15.nodes[Base(n)].content, 10), name |-> W15.nodes[n].namec]
 
 Agrees(tree, e, n, cache) == LET m == EV(tree, Entry(n), cache)  p == AEval(Rec15, n, e, 1) IN p.ok => (m.ok /\ m.v = p.v)
 (* one expression per state of MC_C15 (kind "one"): the value on every entry, from an empty cache *)
